@@ -103,7 +103,8 @@ def make(prop, fam, tmpl, opname, attr=None, conform=True, inplace_mode="sym", f
         else:
             raise AssertionError(tmpl)
         tag = tag + (f"/{op.note}" if op.note else "")
-        s_o, s_by = snap(o), snap(by)
+        s_o, s_by = snap(o), snap(by)  # reads every attribute and property first (cache fills are not changes)
+        cache_before = {n: (n in getattr(o, "__dict__", {})) for n in ("p",)} if tmpl == "K5" else {}
         s_args = [snap(a) for a in op.args]
         if fault:
             # E2-fault: an exception injected at the kf-th executed statement of library code (symbolic kf)
@@ -127,6 +128,9 @@ def make(prop, fam, tmpl, opname, attr=None, conform=True, inplace_mode="sym", f
 
                 instrument.disarm()
 
+        if prop == "C01" and tmpl == "K5":
+            for n_, was in cache_before.items():
+                check((n_ in o.__dict__) == was, "every cached derived value reachable from the receiver is the same before and after", f"{tag}/receiver-cache-{'dropped' if was else 'filled'}-{n_}", lambda: f"{op.name}")
         if prop == "C01":
             check(same(snap(o), s_o), "a helper called without _inplace=True never changes the receiver (same object graph, equal contents), whether it returns or raises", f"{tag}/receiver-changed-{'raise' if exc else 'return'}", lambda: f"{op.name}: before {describe(s_o)} after {describe(snap(o))} exc={exc!r}")
             for a, sa_ in zip(op.args, s_args):
